@@ -11,6 +11,10 @@ Run-lemmas of the parser monad (`st`, `run_cur`, `substC`, …) come from
 namespace Pory.TopParse
 open Pory Pory.Parser Pory.C02P
 
+@[simp] theorem run_modify (f : PState → PState) (s : PState) :
+    (modify f : PM PUnit).run s = .ok (⟨⟩, f s) := id rfl
+@[simp] theorem run_get (s : PState) : (get : PM PState).run s = .ok (s, s) := id rfl
+
 /-! ### `parseScopeModifier` -/
 
 /-- No `(` after the keyword: the default, nothing consumed. -/
@@ -59,6 +63,7 @@ theorem scope_missing_rparen (d : TT) (s : PState) (kw lp m x : Tok) (tl : List 
 inductive Mod
   | absent
   | written (lp m rp : Tok)
+  deriving DecidableEq, Repr
 
 def Mod.toks : Mod → List Tok
   | .absent => []
@@ -99,6 +104,7 @@ theorem scope_mod (d : TT) (s : PState) (kw : Tok) (md : Mod) (nx : Tok) (tl : L
 inductive TextVal
   | plain (str : Tok)
   | typed (ty str : Tok)
+  deriving DecidableEq, Repr
 
 def TextVal.toks : TextVal → List Tok
   | .plain str => [str]
@@ -147,5 +153,269 @@ theorem mapM_tryReplace (s : PState) (l : List Tok) :
   induction l with
   | nil => simp
   | cons t r ih => simp [List.mapM_cons, ih]
+
+/-! ### `parsePoryswitchHeader`: the three ways the environment decides -/
+
+open Pory.C14b in
+/-- The header succeeds (lint parser, or switches given and this one defined). -/
+theorem header_run (env : Env) (s : PState) (psw lp x rp lb : Tok) (tl : List Tok)
+    (hlp : lp.type = .LPAREN) (hx : x.type = .IDENT) (hrp : rp.type = .RPAREN)
+    (hlb : lb.type = .LBRACE)
+    (henv : env.envErrors = false ∨ (env.switches ≠ [] ∧ (env.switches.lookup x.lit).isSome = true)) :
+    (parsePoryswitchHeader env).run (st s (psw :: lp :: x :: rp :: lb :: tl)) =
+      .ok ((x.lit, swVal env x.lit), st s tl) := by
+  refine header_ok env s psw lp x rp lb tl hlp hx hrp hlb ?_
+  intro he
+  rcases henv with h | h
+  · simp [h] at he
+  · exact h.2
+
+/-- `poryswitch` used with environment errors on and no `-s` option at all: error located on the
+`poryswitch` token, before anything is read. -/
+theorem header_no_switches (env : Env) (s : PState) (psw : Tok) (tl : List Tok)
+    (he : env.envErrors = true) (hs : env.switches = []) :
+    (parsePoryswitchHeader env).run (st s (psw :: tl)) =
+      .error (newParseError psw
+        "poryswitch used, but no compile switches were specified with the '-s' option") := by
+  unfold parsePoryswitchHeader
+  simp [he, hs]
+
+/-- Environment errors on, some switches given, but not this one: error located on the switch
+name. -/
+theorem header_undefined_switch (env : Env) (s : PState) (psw lp x : Tok) (tl : List Tok)
+    (hlp : lp.type = .LPAREN) (hx : x.type = .IDENT)
+    (he : env.envErrors = true) (hs : env.switches ≠ []) (hl : env.switches.lookup x.lit = none) :
+    (parsePoryswitchHeader env).run (st s (psw :: lp :: x :: tl)) =
+      .error (newParseError x s!"no poryswitch for '{x.lit}' was specified with the '-s' option") := by
+  unfold parsePoryswitchHeader
+  have hne : env.switches.isEmpty = false := by
+    cases hsw : env.switches with
+    | nil => exact absurd hsw hs
+    | cons a b => rfl
+  simp [he, hne, hlp, hx, hl]
+
+/-! ### text poryswitch: reference syntax and the case loop -/
+
+/-- One case of a text poryswitch: `key : textvalue` or `key { textvalue }`. -/
+inductive TCase
+  | colon (key c : Tok) (v : TextVal)
+  | brace (key lb : Tok) (v : TextVal) (rb : Tok)
+  deriving DecidableEq, Repr
+
+def TCase.toks : TCase → List Tok
+  | .colon key c v => key :: c :: v.toks
+  | .brace key lb v rb => key :: lb :: (v.toks ++ [rb])
+
+def TCase.WF : TCase → Prop
+  | .colon key c v => (key.type = .IDENT ∨ key.type = .INT) ∧ c.type = .COLON ∧ v.WF
+  | .brace key lb v rb =>
+    (key.type = .IDENT ∨ key.type = .INT) ∧ lb.type = .LBRACE ∧ v.WF ∧ rb.type = .RBRACE
+
+def TCase.key : TCase → String
+  | .colon key _ _ => key.lit
+  | .brace key _ _ _ => key.lit
+
+def TCase.val : TCase → TextVal
+  | .colon _ _ v => v
+  | .brace _ _ v _ => v
+
+def printCases : List TCase → List Tok
+  | [] => []
+  | c :: r => c.toks ++ printCases r
+
+/-- The table the case loop builds: newest first. -/
+def caseTable : List TCase → List (String × String × String) → List (String × String × String)
+  | [], acc => acc
+  | c :: r, acc => caseTable r ((c.key, c.val.value) :: acc)
+
+theorem caseTable_eq (cs : List TCase) (acc : List (String × String × String)) :
+    caseTable cs acc = (cs.map fun c => (c.key, c.val.value)).reverse ++ acc := by
+  induction cs generalizing acc with
+  | nil => rfl
+  | cons c r ih => simp [caseTable, ih]
+
+section
+variable (env : Env) (stt : Tok) (n : Nat) (acc : List (String × String × String)) (s : PState)
+
+theorem tcases_close (c : Tok) (tl : List Tok) (hc : c.type = .RBRACE) :
+    (poryswitchTextCases env stt (n + 1) acc).run (st s (c :: tl)) = .ok (acc, st s (c :: tl)) := by
+  rw [poryswitchTextCases]
+  simp [hc]
+
+theorem tcases_colon (key c : Tok) (v : TextVal) (tl : List Tok)
+    (hk : key.type = .IDENT ∨ key.type = .INT) (hc : c.type = .COLON) (hv : v.WF) :
+    (poryswitchTextCases env stt (n + 1) acc).run (st s (key :: c :: (v.toks ++ tl))) =
+      (poryswitchTextCases env stt n ((key.lit, v.value) :: acc)).run (st s tl) := by
+  rw [poryswitchTextCases]
+  rcases hk with hk | hk <;> simp [hk, hc, textValue_run env n s v tl hv]
+
+theorem tcases_brace (key lb : Tok) (v : TextVal) (rb : Tok) (tl : List Tok)
+    (hk : key.type = .IDENT ∨ key.type = .INT) (hlb : lb.type = .LBRACE) (hv : v.WF)
+    (hrb : rb.type = .RBRACE) :
+    (poryswitchTextCases env stt (n + 1) acc).run (st s (key :: lb :: (v.toks ++ rb :: tl))) =
+      (poryswitchTextCases env stt n ((key.lit, v.value) :: acc)).run (st s tl) := by
+  rw [poryswitchTextCases]
+  rcases hk with hk | hk <;> simp [hk, hlb, hrb, textValue_run env n s v (rb :: tl) hv]
+
+/-- A case opened with `{` whose value is not followed by `}`: error located on the token the
+case list started at (Go reports `startToken` here, not the offending token). -/
+theorem tcases_brace_unclosed (key lb : Tok) (v : TextVal) (x : Tok) (tl : List Tok)
+    (hk : key.type = .IDENT ∨ key.type = .INT) (hlb : lb.type = .LBRACE) (hv : v.WF)
+    (hx : x.type ≠ .RBRACE) :
+    (poryswitchTextCases env stt (n + 1) acc).run (st s (key :: lb :: (v.toks ++ x :: tl))) =
+      .error (newParseError stt s!"missing closing curly brace for poryswitch case '{key.lit}'") := by
+  rw [poryswitchTextCases]
+  rcases hk with hk | hk <;> simp [hk, hlb, hx, textValue_run env n s v (x :: tl) hv]
+
+end
+
+/-- The case loop over printed cases up to the closing `}` of the poryswitch. -/
+theorem tcases_run (env : Env) (stt : Tok) (s : PState) (cs : List TCase) (rb : Tok) (tl : List Tok)
+    (hrb : rb.type = .RBRACE) (hwf : ∀ c ∈ cs, c.WF) (acc : List (String × String × String))
+    (f : Nat) :
+    (poryswitchTextCases env stt (cs.length + (f + 1)) acc).run (st s (printCases cs ++ rb :: tl)) =
+      .ok (caseTable cs acc, st s (rb :: tl)) := by
+  induction cs generalizing acc with
+  | nil => simpa [printCases, caseTable] using tcases_close env stt f acc s rb tl hrb
+  | cons c r ih =>
+    have hc := hwf c (by simp)
+    have hr : ∀ x ∈ r, x.WF := fun x hx => hwf x (by simp [hx])
+    have hlen : (c :: r).length + (f + 1) = (r.length + (f + 1)) + 1 := by simp; omega
+    rw [hlen]
+    cases c with
+    | colon key cl v =>
+      simp only [TCase.WF] at hc
+      have := tcases_colon env stt (r.length + (f + 1)) acc s key cl v (printCases r ++ rb :: tl)
+        hc.1 hc.2.1 hc.2.2
+      simp only [printCases, TCase.toks, List.cons_append, List.append_assoc]
+      rw [this, ih hr]
+      rfl
+    | brace key lb v rb' =>
+      simp only [TCase.WF] at hc
+      have := tcases_brace env stt (r.length + (f + 1)) acc s key lb v rb' (printCases r ++ rb :: tl)
+        hc.1 hc.2.1 hc.2.2.1 hc.2.2.2
+      simp only [printCases, TCase.toks, List.cons_append, List.append_assoc, List.nil_append]
+      rw [this, ih hr]
+      rfl
+
+/-! ### `joinSp` / `sbAdd` -/
+
+theorem joinSp_nil : joinSp [] = "" := rfl
+theorem joinSp_one (a : String) : joinSp [a] = a := by rfl
+theorem joinSp_cons_cons (a b : String) (l : List String) :
+    joinSp (a :: b :: l) = a ++ " " ++ joinSp (b :: l) := String.intercalate_cons_cons
+
+theorem joinSp_ne_empty (ws : List String) (h : ws ≠ []) (hw : ∀ w ∈ ws, w ≠ "") : joinSp ws ≠ "" := by
+  match ws, h with
+  | [a], _ => rw [joinSp_one]; exact hw a (by simp)
+  | a :: b :: l, _ =>
+    rw [joinSp_cons_cons]
+    intro h'
+    have := (String.append_eq_empty_iff.mp (String.append_eq_empty_iff.mp h').1).1
+    exact hw a (by simp) this
+
+theorem joinSp_append (a b : List String) (ha : a ≠ []) (hb : b ≠ []) :
+    joinSp (a ++ b) = joinSp a ++ " " ++ joinSp b := by
+  induction a with
+  | nil => exact absurd rfl ha
+  | cons x r ih =>
+    cases r with
+    | nil =>
+      obtain ⟨y, l, rfl⟩ := List.exists_cons_of_ne_nil hb
+      simp [joinSp_cons_cons, joinSp_one]
+    | cons y l =>
+      have := ih (by simp)
+      simp only [List.cons_append] at this ⊢
+      rw [joinSp_cons_cons, this, joinSp_cons_cons]
+      simp [String.append_assoc]
+
+/-- Joining joined groups = joining the concatenation, for non-empty groups. -/
+theorem joinSp_map_joinSp (wss : List (List String)) (h : ∀ ws ∈ wss, ws ≠ []) :
+    joinSp (wss.map joinSp) = joinSp wss.flatten := by
+  induction wss with
+  | nil => rfl
+  | cons ws r ih =>
+    cases r with
+    | nil => simp [joinSp_one]
+    | cons ws' r' =>
+      have ih' := ih (fun x hx => h x (by simp [hx]))
+      have hne : (ws' :: r').flatten ≠ [] := by
+        have := h ws' (by simp)
+        simp [this]
+      rw [List.map_cons, List.map_cons, joinSp_cons_cons, ← List.map_cons, ih',
+        show (ws :: ws' :: r').flatten = ws ++ (ws' :: r').flatten from List.flatten_cons,
+        joinSp_append _ _ (h ws (by simp)) hne]
+
+theorem sbAdd_empty (x : String) : sbAdd "" x = x := by
+  simp [sbAdd]
+
+theorem sbAdd_ne (a x : String) (ha : a ≠ "") : sbAdd a x = a ++ " " ++ x := by
+  have : a.isEmpty = false := by
+    cases h : a.isEmpty with
+    | false => rfl
+    | true => exact absurd (String.isEmpty_iff.mp h) ha
+  simp [sbAdd, this]
+
+theorem sbAdd_ne_empty (a x : String) (hx : x ≠ "") : sbAdd a x ≠ "" := by
+  by_cases ha : a = ""
+  · subst ha; rw [sbAdd_empty]; exact hx
+  · rw [sbAdd_ne a x ha]
+    intro h
+    exact hx (String.append_eq_empty_iff.mp h).2
+
+theorem foldl_sbAdd_ne (ws : List String) (a : String) (ha : a ≠ "") (hws : ∀ w ∈ ws, w ≠ "") :
+    ws.foldl sbAdd a = joinSp (a :: ws) := by
+  induction ws generalizing a with
+  | nil => simp [joinSp_one]
+  | cons w r ih =>
+    rw [List.foldl_cons, ih _ (sbAdd_ne_empty a w (hws w (by simp))) (fun x hx => hws x (by simp [hx])),
+      sbAdd_ne a w ha]
+    cases r with
+    | nil => simp [joinSp_one, joinSp_cons_cons]
+    | cons u l => simp [joinSp_cons_cons, String.append_assoc]
+
+/-- The string-builder accumulation of `parseConstant` / map-script tables is `joinSp`, provided
+no part is empty. -/
+theorem foldl_sbAdd (ws : List String) (hws : ∀ w ∈ ws, w ≠ "") : ws.foldl sbAdd "" = joinSp ws := by
+  cases ws with
+  | nil => rfl
+  | cons w r =>
+    rw [List.foldl_cons, sbAdd_empty, foldl_sbAdd_ne r w (hws w (by simp)) (fun x hx => hws x (by simp [hx]))]
+
+/-- MODEL = Go: an empty part (the literal of `""`) is NOT separated: `strings.Builder` only
+writes a space when it already holds something. -/
+example : ["", "B"].foldl sbAdd "" = "B" ∧ joinSp ["", "B"] = " B" := by decide
+
+/-! ### `constLoop` -/
+
+/-- A token that the value loop of `parseConstant` takes as part of the value when it is the
+peek token: not a top-level keyword; and, to be passed over as current token, not EOF. -/
+def ValTok (v : Tok) : Prop := v.type ∉ Facts.topLevelTokens ∧ v.type ≠ .EOF
+
+instance : DecidablePred ValTok := fun v => by unfold ValTok; exact inferInstance
+
+/-- The value the loop accumulates. -/
+def constAcc (cs : List (String × String)) (vs : List Tok) (acc : String) : String :=
+  (vs.map fun v => substC cs v.lit).foldl sbAdd acc
+
+theorem constLoop_run (s : PState) (vs : List Tok) (c nx : Tok) (tl : List Tok) (acc : String) (f : Nat)
+    (hc : c.type ≠ .EOF) (hvs : ∀ v ∈ vs, ValTok v)
+    (hnx : nx.type ∈ Facts.topLevelTokens) :
+    (constLoop (vs.length + (f + 1)) acc).run (st s (c :: (vs ++ nx :: tl))) =
+      .ok (constAcc s.constants vs acc, st s (vs.getLastD c :: nx :: tl)) := by
+  induction vs generalizing c acc with
+  | nil =>
+    simp only [List.length_nil, Nat.zero_add]
+    rw [constLoop]
+    simp [hnx, constAcc]
+  | cons v r ih =>
+    have hv := hvs v (by simp)
+    have hlen : (v :: r).length + (f + 1) = (r.length + (f + 1)) + 1 := by simp; omega
+    rw [hlen, constLoop]
+    have := ih v (sbAdd acc (substC s.constants v.lit)) hv.2 (fun x hx => hvs x (by simp [hx]))
+    simp [hv.1, hc]
+    rw [this]
+    simp [constAcc]
+    cases r <;> simp [List.getLast?_cons]
 
 end Pory.TopParse
